@@ -92,8 +92,10 @@ class WriterDriver(explore.Driver):
     name = "writer-history"
 
     def __init__(self, scratch, mode0="append", tiny_chunks=True, seed=0,
-                 wsizes=(1, 3), full=True):
+                 wsizes=(1, 3), full=True, only=None):
         self.scratch = scratch
+        # restrict the features written by "W" (None: all of the pool)
+        self.only = tuple(only) if only else None
         self.mode0 = mode0
         self.tiny = tiny_chunks
         self.seed = seed
@@ -102,8 +104,11 @@ class WriterDriver(explore.Driver):
         self._n = itertools.count()
 
     def config(self):
-        return {"mode0": self.mode0, "tiny_chunks": self.tiny,
-                "seed": self.seed, "wsizes": list(self.wsizes)}
+        c = {"mode0": self.mode0, "tiny_chunks": self.tiny,
+             "seed": self.seed, "wsizes": list(self.wsizes)}
+        if self.only:
+            c["only"] = list(self.only)
+        return c
 
     # ------------------------------------------------------------------
     def _open(self, st, mode):
@@ -189,6 +194,8 @@ class WriterDriver(explore.Driver):
             if kind == "W":
                 k = op[1]
                 ev = gen.take(st.pool, st.next, st.next + k)
+                if self.only:
+                    ev = {f: d for f, d in ev.items() if f in self.only}
                 # at odd offsets the traces go in one call per trace name
                 split = bool(st.next % 2)
                 st.next += k
@@ -260,19 +267,26 @@ class WriterDriver(explore.Driver):
 
     def _count(self, st):
         f = st.model["feats"]
-        if "deform" in f:
-            return sum(len(p) for p in f["deform"])
+        for feat in sorted(f):
+            parts = f[feat]
+            if feat == "trace":
+                parts = parts[sorted(parts)[0]]
+            return sum(len(p) for p in parts)
         return 0
 
     def _model_close(self, st, n):
         """What closing the writer adds: rectified metadata, version brand."""
         m = st.model["meta"]
         if n:
+            have = st.model["feats"]
             m[("experiment", "event count")] = n
-            m[("fluorescence", "samples per event")] = gen.TRACE_LEN
-            m.setdefault(("fluorescence", "channel count"), 1)
-            m[("imaging", "roi size x")] = gen.IMG_SHAPE[1]
-            m[("imaging", "roi size y")] = gen.IMG_SHAPE[0]
+            if "trace" in have:
+                m[("fluorescence", "samples per event")] = gen.TRACE_LEN
+            if "fl1_max" in have:
+                m.setdefault(("fluorescence", "channel count"), 1)
+            if "image" in have or "mask" in have:
+                m[("imaging", "roi size x")] = gen.IMG_SHAPE[1]
+                m[("imaging", "roi size y")] = gen.IMG_SHAPE[0]
         m[("setup", "software version")] = brand(
             m.get(("setup", "software version")))
 
@@ -552,8 +566,10 @@ def comp_histories(ctx):
 
 
 def _comp_case(args):
-    comp, reopen, mode, tiny, seed, scratch = args
-    drv = WriterDriver(scratch, mode0=mode, tiny_chunks=tiny, seed=seed)
+    comp, reopen, mode, tiny, seed, scratch = args[:6]
+    only = args[6] if len(args) > 6 else None
+    drv = WriterDriver(scratch, mode0=mode, tiny_chunks=tiny, seed=seed,
+                       only=only)
     hist = []
     for i, p in enumerate(comp):
         if i and reopen:
@@ -594,6 +610,19 @@ def run(ctx):
                 if not tiny and (len(comp) > 4 and ctx.quick):
                     continue
                 items.append((comp, reopen, mode, tiny, ctx.seed, scratch))
+    # every non-empty subset of six feature kinds written on its own (the
+    # file then lacks the features the writer may lean on for bookkeeping)
+    kinds = ("contour", "deform", "fl1_max", "image", "mask", "trace")
+    nsub = 0
+    for r in range(1, len(kinds) + 1):
+        for sub in itertools.combinations(kinds, r):
+            for comp in ((3,), (2, 3), (1, 1, 2), (11,)):
+                for reopen in (False, True):
+                    if reopen and len(comp) == 1:
+                        continue
+                    items.append((comp, reopen, "append", True, ctx.seed,
+                                  scratch, sub))
+                    nsub += 1
     res = par.pmap(_comp_case, items)
     ncross = 0
     for nh, crosses, vs in res:
@@ -601,6 +630,7 @@ def run(ctx):
         viols.extend(vs)
     cov["composition_cases"] = len(items)
     cov["composition_cases_with_full_chunk"] = ncross
+    cov["feature_subset_cases"] = nsub
     cov["composition_samples"] = [list(items[i][0]) for i in
                                   (0, len(items) // 2, len(items) - 1)]
     cov["traces_validated_against_impl"] += len(items)
@@ -629,7 +659,7 @@ def replay(case, ctx):
     c = case["config"]
     drv = WriterDriver(ctx.scratch, mode0=c["mode0"],
                        tiny_chunks=c["tiny_chunks"], seed=c["seed"],
-                       wsizes=tuple(c["wsizes"]))
+                       wsizes=tuple(c["wsizes"]), only=c.get("only"))
     st, _, viols = explore.run_history(drv, case["history"])
     drv.close(st)
     for v in viols:
